@@ -66,6 +66,16 @@ def make_cases(ctx, rnd):
     # reference times in a century year that is not a leap year (2100): year-less dates take their year from it
     texts += [(t, (2100, 2, 10, 9, 0)) for t in ["29.2.", "15.2. - 29.", "29. feb", "28.2. - 29.2.", "feb 29 8pm", "29.", "29.2. for 1 day"]]
     texts += [(t, (2100, 2, 28, 23, 59)) for t in ["tomorrow", "29.", "29.2.", "in 1 day"[3:]]]
+    # rendering of Derive's "podrange" family: <part of day> <end> - <end>, ends with or without a written date
+    pr = []
+    clocks = ["8:00", "13:00", "1:00", "0:00", "11:30", "12:00", "8", "23:59"]
+    for pw in ("abends", "nachmittags", "morgens", "evening", "night", "afternoon", "nachts", "mittags"):
+        for a in clocks:
+            for b in clocks:
+                pr += ["%s 1.1.2020 %s - 1.1.2020 %s" % (pw, a, b), "%s tomorrow %s - %s" % (pw, a, b), "%s %s - %s" % (pw, a, b),
+                       "%s 1.1.2020 %s - 2.1.2020 %s" % (pw, a, b), "1.1.2020 %s %s - %s" % (pw, a, b)]
+    rnd.shuffle(pr)
+    texts += [(t, (2018, 3, 7, 12, 43)) for t in pr[:200 if ctx.quick else 2560]]
     tss = [(2018, 3, 7, 12, 43), (2020, 2, 29, 23, 59), (2019, 1, 31, 0, 0), (2018, 12, 31, 12, 0), (2023, 11, 5, 20, 30),
            (2100, 2, 27, 10, 0), (2000, 2, 28, 10, 0)]
     for t in G.soups(rnd, 400 if ctx.quick else 4000):
@@ -87,7 +97,7 @@ def run(ctx):
                      "implementation: (text x reference time x latent on/off x depth) runs, every streamed candidate judged; distinct = distinct run")
     ctx.assumptions += ["texts: bundled corpus + hazard list + random sequences of lexemes of every pattern (rendering of Derive's alphabet)",
                         "the span is measured against the normalised text with labels removed (what the engine matches on)"]
-    for fam in ("date", "clock", "dur", "pod"):
+    for fam in ("date", "clock", "dur", "pod", "podrange"):
         ctx.mc("Derive", "MC_Derive_%s_%s.cfg" % (fam, "q" if ctx.quick else "t"), timeout=3000, heap="8g")
     cases = make_cases(ctx, rnd)
     core.run_stage(ctx, "candidates", cases, obs_cands, "CandTrace", sig_keys=("form",),
